@@ -714,6 +714,9 @@ class QMI_RpcProxy:
         # Create a lock token for this proxy and try to lock the object.
         their_lock_token = "None"
         if lock_token is not None:
+            if lock_token in (ACCESS_DENIED_TOKEN_PLACEHOLDER, OBJECT_LOCKED_TOKEN_PLACEHOLDER):
+                # These strings are used in replies to signal a denied request.
+                raise ValueError("Reserved lock token {!r}".format(lock_token))
             my_lock_token = QMI_LockTokenDescriptor(self._context.name, lock_token)
 
         else:
